@@ -226,6 +226,11 @@ def check_options(case, res: Res) -> None:
                             f"xhtmlOut={xh} breaks={br} langPrefix={lp!r} highlight={'set' if hi else None}: {first_diff(t2, base_d)}",
                         )
                         return
+    # ---- the same options given to an instance that was already used (in place) must act as at construction
+    h_a = C.build(dict(cfg, late=False)).render(src)
+    h_b = C.build(dict(cfg, late=True)).render(src)
+    if h_a != h_b:
+        res.fail("options:changed-in-place-differs-from-construction", f"{h_b!r} != {h_a!r}"[:500])
     # ---- HTML relations on nonce-substituted copies
     opts = base_md.options
     R = base_md.renderer.render
